@@ -85,7 +85,14 @@ class ValidationError(Exception):
 
     @property
     def errors(self) -> List[LocalizedError]:
-        return [{"loc": path, "err": error} for path, error in self._errors()]
+        # keys of invalid data can be of any class, but loc must be JSON serializable
+        return [
+            {
+                "loc": [k if isinstance(k, (str, int)) else str(k) for k in path],
+                "err": error,
+            }
+            for path, error in self._errors()
+        ]
 
     @staticmethod
     def from_errors(errors: Sequence[LocalizedError]) -> "ValidationError":
